@@ -188,6 +188,9 @@ class MemVFS(_base.VFS_Real):
 
     # -- helpers
     def _norm(self, selector):
+        # the OS treats repeated and trailing slashes as one / none
+        while "//" in selector:
+            selector = selector.replace("//", "/")
         if len(selector) > 1 and selector[-1] == "/":
             return selector[:-1]
         if selector == "":
